@@ -200,6 +200,12 @@ func runC04(p *Prog, r *Report) {
 	if want("C04.11") {
 		ruleTrSeqAfterFlush(p, r, "C04.11")
 	}
+	if want("C04.18") {
+		ruleRecoverySiblings(p, r, "C04.18")
+	}
+	if want("C04.17") {
+		ruleDamageReported(p, r, "C04.17")
+	}
 	if want("C04.16") {
 		ruleManifestReplay(p, r, "C04.16")
 	}
